@@ -764,10 +764,25 @@ fn c09_overlap_part(rep: &mut Report, tier: &str) {
         }
     }
     let mut pool = crate::pool::Pool::spawn(threads().min(tasks.len()), "payload", &json!({"seed": seed()}));
+    // each of these tasks takes a second or two; the service is one single-threaded runtime, and the
+    // only thing that can stop it for minutes is the subject itself: something held across the
+    // suspension of one client's upload that the other client's request needs (a verdict, below)
+    pool.stall_s = Some(300);
     let results = pool.map(&tasks);
     drop(pool);
     let mut n = 0u64;
     for (k, r) in results.iter().enumerate() {
+        if let Err(e) = r {
+            if e.contains("worker stalled") {
+                rep.violations.push(Violation {
+                    property: "C09".into(),
+                    signature: format!("epayload|{}|overlap-no-progress", tasks[k]["spec"].as_str().unwrap_or("")),
+                    message: format!("[{} uploads of clients A and B overlapping ({})] the service made no progress for 300 s: one client's suspended upload blocks the other client's request for good", tasks[k]["spec"].as_str().unwrap_or(""), tasks[k]["interleaved"]),
+                    replay: json!({"engine": "epayload", "task": tasks[k]}),
+                });
+                continue;
+            }
+        }
         match r {
             Ok(res) => {
                 if let Some(e) = res["error"].as_str() {
@@ -947,7 +962,15 @@ fn seq_replay(id: &str, tier: &str, file: &str, runs: &[(String, SeqParams)]) ->
     }
     if v["replay"]["engine"] == "epayload" {
         let mut pool = crate::pool::Pool::spawn(1, "payload", &json!({"seed": seed()}));
+        pool.stall_s = Some(300);
         let r = pool.map(&[v["replay"]["task"].clone()]);
+        if let Some(Err(e)) = r.first() {
+            if e.contains("worker stalled") {
+                println!("VIOLATION property={id} replay={file}");
+                println!("  the service made no progress for 300 s");
+                return 1;
+            }
+        }
         if let Some(Ok(res)) = r.first() {
             if let Some(f) = res["findings"].as_array().and_then(|a| a.first()) {
                 println!("VIOLATION property={id} replay={file}");
